@@ -11,6 +11,11 @@ pub fn stub_from_utf8(v: &[u8]) -> Result<&str, std::str::Utf8Error> {
     refmodel::models::from_utf8(v)
 }
 
+/// M9 (DESIGN.md 10.3): `core::str::count::count_chars` -> refmodel::models::count_chars
+pub fn stub_count_chars(s: &str) -> usize {
+    refmodel::models::count_chars(s)
+}
+
 /// `N` symbolic bytes, all ASCII, with a symbolic length `<= N`.
 /// Returns the buffer and the length; the caller slices.
 pub fn any_ascii<const N: usize>() -> ([u8; N], usize) {
